@@ -322,6 +322,39 @@ def units(w):
             it.check("post:and-the-body-itself", o.value.fields.get("body") is c["body"])
     U.append(Unit("nodes.py::NodeLambda.evaluate", s_lambda, p_lambda, name="nodes.py::NodeLambda.evaluate[defaults are not evaluated at definition time]", allowed=()))
 
+    # library functions written in Checkerlang (on their real AST, contracts/cklsym.py): the argument list is left as it is and the
+    # result is a container of its own (lists of 2 symbolic ints)
+    import sys as _sys
+    from . import cklsym
+
+    def s_libfresh(text):
+        def setup(it):
+            I_ = cklsym.native_session(("List", "Set", "String"))
+            R = cklsym.Reflector(w)
+            R.seed_singletons(_sys.modules["ckl.values"])
+            env = R.reflect(I_.environment)
+            call = R.reflect(_sys.modules["ckl.parser"].parse_script(text, "unit"))
+            xs = [V.int(it, f"x{i}") for i in range(2)]
+            a = V.list_of(it, xs, "a")
+            it.ghost["a"], it.ghost["xs"] = a, xs
+            it.ghost["res"] = it.call(w.func(f"nodes.py::{cls_name(call)}.evaluate"), [call, real_env(w, it, {"a": a}, parent=env)])
+            return [], {}, {}
+        return setup
+
+    def p_libfresh(it, c, o):
+        a, xs, r = it.ghost["a"], it.ghost["xs"], it.ghost["res"]
+        items = a.fields["value"].items
+        it.check("frame:the-argument-list-holds-the-same-elements-as-before", items is not None and len(items) == 2 and all(x is y for x, y in zip(items, xs)))
+        acc = []
+        containers_of(r, acc)
+        it.check("post:no-container-of-the-result-is-the-argument's(at any depth: a later mutation of the result cannot reach the argument)",
+                 r is not a and not any(x is a.fields["value"] for x in acc))
+    for text in ("List->reverse(a)", "List->unique(a)", "List->filter(a, fn(v) v > 0)", "List->map_list(a, fn(v) v)", "List->flatten([a])", "List->rest(a)",
+                 "List->first_n(a, 2)", "List->last_n(a, 2)", "Set->union(a, a)", "Set->diff(a, [])", "pairs(a)", "enumerate(a)", "zip(a, a)", "chunks(a, 5)"):
+        U.append(Unit("nodes.py::invoke", s_libfresh(text), p_libfresh, body=lambda it, c: Outcome("return", None),
+                      name=f"library::{text}[real module source: argument unchanged, result not an alias]", bounded="lists of 2 symbolic ints",
+                      replay=replay_frame("FuncAppend")))
+
     # ValueList.addItems rebinds instead of extending (a later mutation of the result must not reach the source list)
     def s_additems(it):
         dst = V.list_of(it, [], "dst")
@@ -412,6 +445,10 @@ def bounded(tier, seed):
         ("def fresh() do def l = [0]; l end; def a = fresh(); append(a, 1); fresh()", "[0]"),
         ("def rows = [[] for i in range(2)]; append(rows[0], 1); rows", "[[1], []]"),
         ("def a = [1]; def f(x = a) do append(x, 2); x end; f(); a", "[1, 2]"),
+        # containers inside results of non-mutating library functions are not the argument itself
+        ("def a = [1, 2]; def c = chunks(a, 5); append(c[0], 9); a", "[1, 2]"), ("def a = [1, 2]; def c = chunks(a, 2); append(c[0], 9); a", "[1, 2]"),
+        ("def a = [1, 2, 3]; def c = chunks(a, 2); append(c[1], 9); a", "[1, 2, 3]"), ("def a = [1, 2]; def c = first_n(a, 5); append(c, 9); a", "[1, 2]"),
+        ("def a = [1, 2]; def c = last_n(a, 5); append(c, 9); a", "[1, 2]"), ("def a = [1, 2]; def c = rest([0] + a); append(c, 9); a", "[1, 2]"),
     ]
     ev = 0
     for src, exp in cases:
